@@ -6,52 +6,62 @@ import (
 	"flag"
 	"fmt"
 	"os"
+	"sort"
 )
+
+type cmdArgs struct {
+	seed     uint64
+	n        int
+	dir      string
+	thorough bool
+	file     string
+}
+
+var commands = map[string]func(cmdArgs){}
+
+// register adds a sub-command; each property file registers its own in an init().
+func register(name string, f func(cmdArgs)) { commands[name] = f }
+
+func init() {
+	register("c04-corr", func(a cmdArgs) { cmdC04Corr(a.seed, a.n, a.dir) })
+	register("c04-sweep", func(a cmdArgs) { cmdC04Sweep(a.seed, a.thorough, a.dir) })
+	register("c05", func(a cmdArgs) { cmdC05(a.seed, a.thorough, a.dir) })
+	register("c08-corr", func(a cmdArgs) { cmdC08Corr(a.seed, a.n, a.dir) })
+	register("c08-script", func(a cmdArgs) { cmdC08Script(a.seed, a.n, a.dir) })
+	register("c10-corr", func(a cmdArgs) { cmdC10Corr(a.seed, a.n, a.dir) })
+	register("c10-script", func(a cmdArgs) { cmdC10Script(a.seed, a.n, a.dir) })
+	register("c12-corr", func(a cmdArgs) { cmdC12Corr(a.seed, a.n, a.dir) })
+	register("c12-script", func(a cmdArgs) { cmdC12Script(a.seed, a.n, a.dir) })
+	register("c15", func(a cmdArgs) { cmdC15(a.seed, a.n, a.dir) })
+	register("c16-corr", func(a cmdArgs) { cmdC16Corr(a.seed, a.n, a.dir) })
+	register("c16-perm", func(a cmdArgs) { cmdC16Perm(a.seed, a.n, a.dir) })
+	register("probe", func(a cmdArgs) { cmdProbe(a.file) })
+}
 
 func main() {
 	if len(os.Args) < 2 {
-		fmt.Fprintln(os.Stderr, "usage: harness <cmd> [flags]")
+		var names []string
+		for k := range commands {
+			names = append(names, k)
+		}
+		sort.Strings(names)
+		fmt.Fprintln(os.Stderr, "usage: harness <cmd> [flags]; commands:", names)
 		os.Exit(2)
 	}
 	cmd := os.Args[1]
 	fs := flag.NewFlagSet(cmd, flag.ExitOnError)
-	seed := fs.Uint64("seed", 1, "PRNG seed")
-	n := fs.Int("n", 1000, "case count")
-	dir := fs.String("out", ".", "output directory")
-	thorough := fs.Bool("thorough", false, "thorough tier")
-	file := fs.String("file", "", "input file (replay)")
+	var a cmdArgs
+	fs.Uint64Var(&a.seed, "seed", 1, "PRNG seed")
+	fs.IntVar(&a.n, "n", 1000, "case count")
+	fs.StringVar(&a.dir, "out", ".", "output directory")
+	fs.BoolVar(&a.thorough, "thorough", false, "thorough tier")
+	fs.StringVar(&a.file, "file", "", "input file (probe / replay)")
 	fs.Parse(os.Args[2:])
-	_ = file
-	must(os.MkdirAll(*dir, 0o755))
-	switch cmd {
-	case "c04-corr":
-		cmdC04Corr(*seed, *n, *dir)
-	case "c04-sweep":
-		cmdC04Sweep(*seed, *thorough, *dir)
-	case "c12-corr":
-		cmdC12Corr(*seed, *n, *dir)
-	case "c10-corr":
-		cmdC10Corr(*seed, *n, *dir)
-	case "c10-script":
-		cmdC10Script(*seed, *n, *dir)
-	case "probe":
-		cmdProbe(*file)
-	case "c08-corr":
-		cmdC08Corr(*seed, *n, *dir)
-	case "c08-script":
-		cmdC08Script(*seed, *n, *dir)
-	case "c15":
-		cmdC15(*seed, *n, *dir)
-	case "c16-corr":
-		cmdC16Corr(*seed, *n, *dir)
-	case "c16-perm":
-		cmdC16Perm(*seed, *n, *dir)
-	case "c12-script":
-		cmdC12Script(*seed, *n, *dir)
-	case "c05":
-		cmdC05(*seed, *thorough, *dir)
-	default:
+	must(os.MkdirAll(a.dir, 0o755))
+	f, ok := commands[cmd]
+	if !ok {
 		fmt.Fprintln(os.Stderr, "unknown command", cmd)
 		os.Exit(2)
 	}
+	f(a)
 }
